@@ -652,6 +652,23 @@ def apply_op(w, op):
         owner = chained(cfg, path.rsplit(".", 1)[0]) if "." in path else cfg
         setattr(owner, path.rsplit(".", 1)[-1], v)
         return None
+    if name == "selfset":        # the value read from the field is assigned back to it
+        path = op[1]
+        owner = chained(cfg, path.rsplit(".", 1)[0]) if "." in path else cfg
+        key = path.rsplit(".", 1)[-1]
+        setattr(owner, key, getattr(owner, key))
+        return None
+    if name == "augset":         # augmented assignment on the attribute: read, extend in place, assign the result back
+        path, more = op[1], w.dec(op[2])
+        owner = chained(cfg, path.rsplit(".", 1)[0]) if "." in path else cfg
+        key = path.rsplit(".", 1)[-1]
+        cur = getattr(owner, key)
+        if isinstance(cur, dict):
+            cur |= more
+        else:
+            cur += more
+        setattr(owner, key, cur)
+        return None
     if name == "validate":       # an explicit whole-configuration validation pass
         cfg.validate()
         return None
@@ -786,6 +803,12 @@ def ops_for(spec, leafname, tier="quick"):
             if _jsonlike(v):
                 ops.append(["loads", "json", tree_for(path, v)])
         ops.append(["reset", path])
+        if "[" not in path:
+            ops.append(["selfset", path])
+            if kind == "List" and valid and isinstance(V.dec(valid[0]), list) and V.dec(valid[0]):
+                ops.append(["augset", path, [valid[0][0] if isinstance(valid[0], list) else V.dec(valid[0])[0]]])
+            elif kind == "Dict" and valid and isinstance(V.dec(valid[0]), dict) and V.dec(valid[0]):
+                ops.append(["augset", path, valid[0]])
         if kind in ("Str", "Int", "Float", "Port", "Bool", "IPv4", "Net", "Host", "Url", "LogLevel", "AppMode", "File") and "[" not in path:
             opt = "--" + path.replace(".", "-").replace("_", "-").lower()
             for cls, v in vals:
@@ -1021,11 +1044,15 @@ def build_world(spec, hist, sibling=False, built=None):
     return w
 
 
-def explore(ctx, spec, leafname, depth, monitor, tier="quick", max_states=20000, only=None, sibling=False, extra_ops=(), share_schema=False):
+def _dropped(op, drop):
+    return op[0] in drop or ("nv" in drop and op[0] == "load_tree" and len(op) > 2 and op[2] == "nv")
+
+
+def explore(ctx, spec, leafname, depth, monitor, tier="quick", max_states=20000, only=None, sibling=False, extra_ops=(), share_schema=False, drop=()):
     """Breadth-first search over operation histories with canonical-state de-duplication.
     monitor.state(ctx, w, hist) is called for every newly reached state (incl. initial ones) and
     monitor.step(ctx, before, before_ids, op, outcome, w, hist) for every transition."""
-    ops = ops_for(spec, leafname, tier) + list(extra_ops)
+    ops = [o for o in ops_for(spec, leafname, tier) if not _dropped(o, drop)] + list(extra_ops)
     inits = initial_states(spec, leafname)
     seen = {}
     frontier = collections.deque()
